@@ -61,7 +61,7 @@ func (pr *Program) VerifyFunc(fi *FuncInfo) (rep *FuncReport) {
 	w := NewWorld("w0")
 	wid := s.NewWorldID(w)
 	x.specWorldID = wid
-	s.Assume(Ge(w.Height, Zero))
+	s.Assume(And(Ge(w.Height, Zero), rangeFact(tInt64, w.Height)))
 	cc := &callCtx{fi: fi, info: fi.Pkg.P.TypesInfo, pkg: fi.Pkg, env: NewEnv(nil), top: true}
 	x.cur = cc
 	// symbolic parameters
@@ -300,6 +300,12 @@ func (x *Exec) attachAxioms() {
 			}
 		}
 	}
+	ax = append(ax, x.typeAxioms...)
+	if x.needSumAxioms {
+		for _, o := range x.Obls {
+			o.Hyp = And(o.Hyp, sumInstances(o.Hyp, o.Goal))
+		}
+	}
 	if len(ax) == 0 {
 		return
 	}
@@ -457,4 +463,36 @@ func (pr *Program) LemmaObligations(c *Contract, pi *PkgInfo) (obls []*Obligatio
 	x.Obls = obls
 	x.attachAxioms()
 	return obls, nil
+}
+
+// sumInstances returns ground instances of the seq.sum axioms for every sum term occurring in the terms
+// (manual E-matching, so that most obligations are decided without quantifiers).
+func sumInstances(ts ...*Term) *Term {
+	seen := map[*Term]bool{}
+	var sums []*Term
+	var walk func(t *Term)
+	walk = func(t *Term) {
+		if seen[t] {
+			return
+		}
+		seen[t] = true
+		if t.Op == "uf" && t.Name == "seq.sum" {
+			sums = append(sums, t)
+		}
+		for _, a := range t.Args {
+			walk(a)
+		}
+	}
+	for _, t := range ts {
+		walk(t)
+	}
+	var out []*Term
+	sum := func(a, l, h *Term) *Term { return App("seq.sum", SInt, a, l, h) }
+	for _, st := range sums {
+		a, lo, hi := st.Args[0], st.Args[1], st.Args[2]
+		out = append(out, Eq(sum(a, lo, lo), Zero))
+		out = append(out, Implies(Lt(lo, hi), Eq(st, Add(sum(a, lo, Sub(hi, One)), Select(a, Sub(hi, One))))))
+		out = append(out, Implies(Le(lo, hi), Eq(sum(a, lo, Add(hi, One)), Add(st, Select(a, hi)))))
+	}
+	return And(out...)
 }
